@@ -42,8 +42,8 @@ type machine struct {
 	noWL    bool
 
 	// non-triviality bookkeeping
-	reopened, evicting, ovCommitShadow, seekOnDirty, getDuringIter bool
-	stratum                                                    string
+	reopened, evicting, ovCommitShadow, seekOnDirty, getDuringIter, forked bool
+	stratum                                                                string
 }
 
 func (m *machine) top() *layer { return m.stack[len(m.stack)-1] }
@@ -284,6 +284,68 @@ func (m *machine) ovCommit(t *rapid.T) {
 	m.stack = m.stack[:len(m.stack)-1]
 }
 
+// ovFork duplicates the top overlay with Copy (as the consensus layer does with its init / check states), writes
+// through ONE of the two while both stay open, and checks that each still reads as its own model: the copy is a
+// snapshot, writes on one side are invisible on the other.
+func (m *machine) ovFork(t *rapid.T) {
+	if len(m.stack) < 2 {
+		t.Skip("no overlay")
+	}
+	l := m.top()
+	twin := l.ov.Copy(nil)
+	defer twin.Close()
+	twinModel := l.model.Clone()
+	m.forked = true
+	m.log("fork overlay L%d", len(m.stack)-1)
+	nops := rapid.IntRange(1, 4).Draw(t, "forkOps")
+	for i := 0; i < nops; i++ {
+		k := m.key(t)
+		onTwin := rapid.Bool().Draw(t, "forkOnTwin")
+		var tree mkvs.KeyValueTree = l.tree
+		model := l.model
+		if onTwin {
+			tree, model = twin, twinModel
+		}
+		if rapid.IntRange(0, 2).Draw(t, "forkRemove") == 0 {
+			m.log("  fork(twin=%v) remove %x", onTwin, k)
+			if err := tree.Remove(ctx, k); err != nil {
+				m.fail("fork remove %x: %v", k, err)
+			}
+			delete(model, string(k))
+		} else {
+			v := kv.GenValue(t)
+			m.log("  fork(twin=%v) insert %x len=%d", onTwin, k, len(v))
+			if err := tree.Insert(ctx, k, v); err != nil {
+				m.fail("fork insert %x: %v", k, err)
+			}
+			model[string(k)] = v
+		}
+		if !onTwin {
+			l.dirty[string(k)] = true
+		}
+	}
+	for _, side := range []struct {
+		name  string
+		tree  mkvs.KeyValueTree
+		model kv.Model
+	}{{"original", l.tree, l.model}, {"copy", twin, twinModel}} {
+		got, err := kv.Scan(ctx, side.tree)
+		if err != nil {
+			m.fail("fork %s scan: %v", side.name, err)
+		}
+		if msg := kv.CompareScan(got, side.model); msg != "" {
+			m.fail("after writes on a forked overlay the %s reads wrongly: %s", side.name, msg)
+		}
+		for _, k := range m.uni {
+			v, err := side.tree.Get(ctx, k)
+			want, had := side.model[string(k)]
+			if err != nil || had != (v != nil) || !bytes.Equal(v, want) {
+				m.fail("after writes on a forked overlay the %s: get %x returned %x (nil=%v, err %v), model %x (present=%v)", side.name, k, trunc(v), v == nil, err, trunc(want), had)
+			}
+		}
+	}
+}
+
 func (m *machine) ovDiscard(t *rapid.T) {
 	if len(m.stack) < 2 {
 		t.Skip("no overlay")
@@ -322,7 +384,7 @@ func (m *machine) treeCommit(t *rapid.T) {
 
 const rule = "case = rapid state machine: one tree on a node database (both backends, generated cache capacity stratum, write log on/off) and a stack of 0-3 overlays created exactly as Context.NewTransaction does; " +
 	"actions on the top object: insert, remove, remove-existing; reads on any layer: get, iterator Rewind/Seek (present, absent, prefix, extension, before-first, after-last keys) + Next with gets interleaved; " +
-	"overlay push / commit (directly or via Copy) / discard; tree commit+finalize with optional close and reopen at the committed root with a new capacity; universe 1-40 prefix-heavy keys. " +
+	"overlay push / commit (directly or via Copy) / discard / fork (Copy with both sides kept open and written); tree commit+finalize with optional close and reopen at the committed root with a new capacity; universe 1-40 prefix-heavy keys. " +
 	"oracle = reference ordered map per layer: every result, and after every action a full scan and a get of every universe key on every layer; root after each commit equals the reference root. " +
 	"non-trivial = (commit+reopen or evicting capacity) AND an overlay commit over a key present in its parent AND a Seek to a key written/removed in that overlay; distinct = hash of the action trace"
 
@@ -389,6 +451,7 @@ func TestC03OrderedMap(t *testing.T) {
 				"push":           m.push,
 				"ovCommit":       m.ovCommit,
 				"ovDiscard":      m.ovDiscard,
+				"ovFork":         m.ovFork,
 				"treeCommit":     m.treeCommit,
 				"":               func(*rapid.T) { m.fullCheck() },
 			})
@@ -398,7 +461,7 @@ func TestC03OrderedMap(t *testing.T) {
 			on   bool
 			name string
 		}{{m.reopened, "commit+reopen"}, {m.evicting, "evicting-capacity"}, {m.ovCommitShadow, "overlay-commit-over-parent-key"},
-			{m.seekOnDirty, "seek-on-overlay-written-key"}, {m.getDuringIter, "get-during-iteration"}, {m.noWL, "without-writelog"}} {
+			{m.seekOnDirty, "seek-on-overlay-written-key"}, {m.getDuringIter, "get-during-iteration"}, {m.forked, "overlay-forked-with-copy"}, {m.noWL, "without-writelog"}} {
 			if l.on {
 				rec.Label(l.name)
 			}
